@@ -94,3 +94,63 @@ contract('datatypes.IpaddrOrHostname.__call__',
          raises=[Raise('ValueError',
                        when="not rx_whole(self._rx, value) or (':' in value.lower() and not ipv6_ok(value.lower()))",
                        carries='C09', label='rejects')])
+
+# --- inet-address family ---------------------------------------------------------------------
+prim('before_last', 'str, str -> str', args=['s', 'sep'],
+     axioms=['implies(sep in s, result + sep + after_last(s, sep) == s)'],
+     native=lambda s, sep: s.rsplit(sep, 1)[0])
+prim('after_last', 'str, str -> str', args=['s', 'sep'],
+     axioms=["implies(sep in s and len(sep) == 1, sep not in result)"],
+     native=lambda s, sep: s.rsplit(sep, 1)[-1])
+prim('word_count', 'str -> int', args=['s'], axioms=['result >= 0', "implies(s == '', result == 0)"],
+     native=lambda s: len(s.split()))
+assumed('str.rsplitsep2', params={'self': 'str', 'sep': 'str', 'maxsplit': 'int'}, returns='Seq[str]', pure=True,
+        requires=[Clause('maxsplit == 1')],
+        ensures=[Clause('implies(sep in self, len(result) == 2 and result[0] == before_last(self, sep) and '
+                        'result[1] == after_last(self, sep))'),
+                 Clause('implies(sep not in self, len(result) == 1 and result[0] == self)')],
+        notes='str.rsplit(sep, 1): split at the LAST occurrence of sep')
+assumed('str.split', params={'self': 'str'}, returns='Seq[str]', pure=True,
+        ensures=[Clause('len(result) == word_count(self)')], notes='str.split(): the whitespace-separated words')
+assumed('datatypes.port_number', params={'value': 'str'}, returns='int', pure=True,
+        ensures=[Clause('result == int_of(value) and port_ok(value)')],
+        raises=[Raise('ValueError', when='not port_ok(value)')],
+        notes='the bound method RangeCheckedConversion(integer, 0, 65535).__call__: proved for the class '
+              '(RangeCheckedConversion.__call__), tied to this instance by bind:datatypes:port-number-*')
+model('datatypes.InetAddress', fields={'DEFAULT_HOST': 'str'})
+contract('datatypes.InetAddress.__call__', params={'s': 'str'}, returns='Tuple[str, Opt[int]]',
+         ensures=[Clause('inet_spec(s, self.DEFAULT_HOST)[0] == 0 and result[0] == inet_spec(s, self.DEFAULT_HOST)[1]',
+                         carries='C09', label='host-lower-cased-brackets-removed-default-host-supplied'),
+                  Clause('(result[1] is not None) == inet_spec(s, self.DEFAULT_HOST)[2] and '
+                         'implies(result[1] is not None, val(result[1]) == inet_spec(s, self.DEFAULT_HOST)[3])',
+                         carries='C09', label='port-after-the-last-colon-unless-unbracketed-ipv6')],
+         raises=[Raise('ValueError', when='inet_spec(s, self.DEFAULT_HOST)[0] == 1', carries='C09',
+                       label='bad-port-or-not-a-host-name')])
+
+# --- socket-address ----------------------------------------------------------------------------
+from pyvc.api import ext_value
+ext_value('socket.AF_INET', 'Opaque[AddressFamily]')
+ext_value('socket.AF_INET6', 'Opaque[AddressFamily]')
+ext_value('socket.AF_UNIX', 'Opaque[AddressFamily]')
+ext_value('os.sep', 'str', '/')
+assumed('getattr:socket.AF_UNIX', params={}, returns='Opt[Opaque[AddressFamily]]', pure=True,
+        ensures=[Clause("result == ext('socket.AF_UNIX')")], notes='socket.AF_UNIX (present on POSIX)')
+model('datatypes.SocketAddress', fields={'family': 'Opt[Opaque[AddressFamily]]', 'address': 'AddrVal'})
+from pyvc.types import TUnion, define_type, parse_type
+define_type('AddrVal', TUnion('AddrVal', [('path', parse_type('str')), ('inet', parse_type('Tuple[str, Opt[int]]'))]))
+assumed('datatypes.inet_address', params={'s': 'str'}, returns='Tuple[str, Opt[int]]', pure=True,
+        ensures=[Clause("inet_spec(s, '')[0] == 0 and result[0] == inet_spec(s, '')[1] and "
+                        "(result[1] is not None) == inet_spec(s, '')[2]")],
+        raises=[Raise('ValueError', when="inet_spec(s, '')[0] == 1")],
+        notes="the module instance InetAddress('') on POSIX: proved for the class (InetAddress.__call__), tied to the "
+              'instance by bind:datatypes:default-hosts')
+inline('datatypes.SocketAddress._parse_address')
+contract('datatypes.SocketAddress.__init__', params={'s': 'str'},
+         ensures=[Clause("implies('/' in s, is_alt(self.address, 'path') and alt(self.address, 'path') == s)", carries='C09',
+                         label='a-text-with-a-slash-is-a-unix-path'),
+                  Clause("implies('/' in s, self.family == ext('socket.AF_UNIX'))", carries='C09', label='unix-family'),
+                  Clause("implies('/' not in s, inet_spec(s, '')[0] == 0 and is_alt(self.address, 'inet') and "
+                         "alt(self.address, 'inet')[0] == inet_spec(s, '')[1])", carries='C09', label='otherwise-an-inet-address'),
+                  Clause("implies('/' not in s, self.family == (ext('socket.AF_INET6') if ':' in inet_spec(s, '')[1] else ext('socket.AF_INET')))",
+                         carries='C09', label='a-colon-in-the-host-means-ipv6')],
+         raises=[Raise('ValueError', when="'/' not in s and inet_spec(s, '')[0] == 1", carries='C09', label='bad-inet-address')])
